@@ -191,6 +191,17 @@ def compare_paths(code: List[Path], spec: List[Path], view: View, stats: Optiona
     souts = [outcome_of(p, view) for p in spec]
     seen_keys = set()
     for pc, oc in zip(code, couts):
+        if solve([(a, pol) for a, pol, _ in pc.lits], view.integer_dims) is None:
+            stats['infeasible_code_paths'] = stats.get('infeasible_code_paths', 0) + 1
+            continue
+        partners = 0
+        for ps, os_ in zip(spec, souts):
+            if solve([(a, pol) for a, pol, _ in pc.lits] + [(a, pol) for a, pol, _ in ps.lits], view.integer_dims) is not None:
+                partners += 1
+        if partners == 0 and spec:
+            d = 'no reference path covers the region of code path [%s]' % pc.cond_str()
+            out.append(Mismatch(pc, spec[0], {}, oc.canon(), souts[0].canon(), d, pc.lits[-1][2] if pc.lits else pc.exit_line))
+            continue
         for ps, os_ in zip(spec, souts):
             lits = [(a, pol) for a, pol, _ in pc.lits] + [(a, pol) for a, pol, _ in ps.lits]
             w = solve(lits, view.integer_dims)
